@@ -803,7 +803,18 @@ impl<'tcx> Dumper<'tcx> {
 
     fn inst_key(&self, inst: Instance<'tcx>) -> String {
         let args = self.tcx.erase_and_anonymize_regions(inst.args);
-        let base = self.tcx.def_path_str_with_args(inst.def_id(), args);
+        let mut base = self.tcx.def_path_str_with_args(inst.def_id(), args);
+        // closure types print as `{closure@file:line:col}`: closures produced by one macro expansion share their span,
+        // so two instantiations with different closures would get the same key. Append the closures' own def paths.
+        for a in args.iter() {
+            for inner in a.walk() {
+                if let GenericArgKind::Type(t) = inner.kind() {
+                    if let ty::Closure(did, _) = t.kind() {
+                        base.push_str(&format!("@{}", self.tcx.def_path_str(*did)));
+                    }
+                }
+            }
+        }
         match inst.def {
             InstanceKind::Item(_) => base,
             other => format!("{}#{}", base, kind_name(&other)),
